@@ -15,8 +15,30 @@ def configs(P, rng):
         cs.append({"name": "compiled -j1", "args": ["-j4"], "compile": True, "exe_args": ["-j1"]})
     return cs
 
+INT_FEATURES = ["neg", "agg", "arith", "range", "recursion", "mutual", "disj", "multihead", "facts", "nullary", "cmp", "bits"]
+
+def programs(s, n):
+    return gen.programs(s, n - n // 2) + gen.programs(s + 1, n // 2, features=INT_FEATURES)
+
+def post(res, Ps, cases, wd):
+    """S/A: order independence at RAM level.  The REAL RAM program built for -j4 (ParallelTransformer has run) is executed
+    by spec/Ram.tla under every permutation of the value order as scan order: all orders must give the model."""
+    import random, itertools, concurrent.futures as cf
+    from .. import ramcheck
+    orders = [[]] + [list(p) for p in itertools.permutations([0, 1, 2])]
+    sel = [i for i, P in enumerate(Ps) if cases[i] and all(t == "i" for r in P["rels"] for t in r["types"])][: (4 if res.tier == "quick" else 30)]
+    def one(i):
+        usable = cases[i] if len(cases[i]) <= 16 else random.Random(seed() + i).sample(cases[i], 16)
+        return ramcheck.check(Ps[i], usable, wd, "ram_p%d" % i, res, "C03", args=("-j4",), n_traces=2, rng=random.Random(seed() * 5 + i),
+                              orders=orders, tag="orders")
+    with cf.ThreadPoolExecutor(4) as ex:
+        sts = list(ex.map(one, sel))
+    res.cov["ram_programs_checked_under_all_scan_orders"] = sum(1 for s in sts if s["status"] == "ok")
+    res.cov["scan_orders_per_program"] = len(orders)
+
 def run(tier, replay=None):
-    return evalprop.run_eval("C03", tier, lambda s, n: gen.programs(s, n), configs,
+    return evalprop.run_eval("C03", tier, programs, configs,
                              ["OpenMP schedules are perturbed (seeded yields/sleeps at lock primitives), not enumerated; "
-                              "exhaustive interleavings are explored at container level (C25-C31)"],
-                             n=(10, 120), max_cases=(10, 48))
+                              "exhaustive interleavings are explored at container level (C25-C31)",
+                              "order independence of the RAM program is checked by spec/Ram.tla under 7 scan orders for integer-only programs"],
+                             n=(10, 120), max_cases=(10, 48), post=post)
